@@ -119,6 +119,68 @@ func Run(j *job.Job, s *job.Sink) {
 			if r.Intn(6) == 0 {
 				ops = append(ops, op{Kind: "process"})
 			}
+			if r.Intn(8) == 0 {
+				ops = append(ops, op{Kind: "process"}, op{Kind: "reread"}, op{Kind: "process"})
+			}
+		}
+		// One history in three also carries an identity hierarchy spread over two to four
+		// small modules that arrive at different times (a chain TOP <- MID <- LOW in the
+		// first, later modules deriving from any level, equal names across modules, an
+		// identityref leaf on the top), so that derived-identity lists are recomputed
+		// across processing runs.
+		if r.Intn(3) == 0 {
+			n := 2 + r.Intn(3)
+			var idops []op
+			for k := 0; k < n; k++ {
+				var b strings.Builder
+				fmt.Fprintf(&b, "module zzid%d {\n  namespace \"urn:zzid%d\";\n  prefix i%d;\n", k, k, k)
+				for q := 0; q < k; q++ {
+					fmt.Fprintf(&b, "  import zzid%d { prefix x%d; }\n", q, q)
+				}
+				if k == 0 {
+					b.WriteString("  identity TOP;\n  identity MID { base TOP; }\n  identity LOW { base MID; }\n  leaf idref { type identityref { base TOP; } }\n")
+				} else {
+					for q := 1 + r.Intn(2); q > 0; q-- {
+						src := r.Intn(k)
+						base := []string{"TOP", "MID", "LOW"}[r.Intn(3)]
+						name := []string{"EXTRA", "LOW", fmt.Sprintf("E%d", k)}[r.Intn(3)]
+						if src != 0 {
+							base = "LOW"
+						}
+						fmt.Fprintf(&b, "  identity %s%d { base x%d:%s; }\n", name, q, 0, base)
+					}
+					fmt.Fprintf(&b, "  identity LOW { base x0:%s; }\n", []string{"TOP", "MID", "LOW"}[r.Intn(3)])
+				}
+				b.WriteString("}\n")
+				idops = append(idops, op{"load", fmt.Sprintf("zzid%d.yang", k), b.String()})
+			}
+			for _, io := range idops {
+				at := r.Intn(len(ops) + 1)
+				ops = append(ops[:at], append([]op{io}, ops[at:]...)...)
+				if r.Intn(2) == 0 {
+					ops = append(ops, op{Kind: "process"})
+				}
+			}
+			s.Count("histories_with_identity_modules", 1)
+		}
+		// One history in five gets a "namespace twin": a small module, with or without a
+		// revision, that claims the namespace of a module already in the history and arrives
+		// late (after reads may have cached the namespace lookup).
+		if r.Intn(5) == 0 {
+			var cands []*schema.Mod
+			for _, m := range g.Mods {
+				if !m.Sub {
+					cands = append(cands, m)
+				}
+			}
+			m := cands[r.Intn(len(cands))]
+			rev := ""
+			if r.Intn(2) == 0 {
+				rev = "  revision 2021-03-03;\n"
+			}
+			tw := fmt.Sprintf("module zztwin {\n  namespace %q;\n  prefix zt;\n%s  leaf zztw { type string; }\n}\n", m.NS, rev)
+			ops = append(ops, op{Kind: "process"}, op{Kind: "read"}, op{"load", "zztwin.yang", tw}, op{Kind: "process"}, op{Kind: "read"})
+			s.Count("histories_with_a_namespace_twin", 1)
 		}
 		// One history in four has a module in two revisions: the older one takes the place
 		// of the original text, the newer one (with one more top-level leaf and one more
@@ -232,6 +294,13 @@ func Run(j *job.Job, s *job.Sink) {
 					// Trees only "come back" from a clean Process; reads after a failed one
 					// are outside the claim (DESIGN.md C01, blind spots).
 					if lastClean {
+						readWalk(ms)
+					}
+				case "reread":
+					// the caller drops the entry cache and converts everything again on its own
+					// (both public API), which must not disturb the next Process either
+					if lastClean {
+						ms.ClearEntryCache()
 						readWalk(ms)
 					}
 				case "process":
